@@ -823,7 +823,10 @@ pub(crate) fn merge_trees(
     save: &impl Fn(Tree) -> RusticResult<(TreeId, u64)>,
     summary: &mut SnapshotSummary,
 ) -> RusticResult<TreeId> {
-    // We store nodes with the index of the tree in an Binary Heap where we sort only by node name
+    // We store nodes with the index of the tree in an Binary Heap where we sort only by node name.
+    // Trees are sorted by `Node::name()`, i.e. the unescaped name, so this is what must be compared
+    // here: the order of the escaped names differs as soon as a name contains a character which is
+    // escaped (`"`, `\`, control characters, invalid unicode).
     struct SortedNode(Node, usize);
     impl PartialEq for SortedNode {
         fn eq(&self, other: &Self) -> bool {
@@ -838,7 +841,7 @@ pub(crate) fn merge_trees(
     impl Eq for SortedNode {}
     impl Ord for SortedNode {
         fn cmp(&self, other: &Self) -> Ordering {
-            self.0.name.cmp(&other.0.name).reverse()
+            self.0.name().cmp(&other.0.name()).reverse()
         }
     }
 
